@@ -64,6 +64,23 @@ class World:
             self.sk += 1
             self.marks.append(self.now + 2000)
 
+    def conflict_service_multi(self):
+        """one response with several records around the current candidate: the current and the next alternative
+           (in either order), the same name under another type before / after the SRV, a repeated record"""
+        if not self.last:
+            return
+        rng = self.rng
+        shape = rng.choice([[(0, 33), (1, 33)], [(1, 33), (0, 33)], [(0, 16), (0, 33)], [(0, 33), (0, 16)], [(0, 33), (0, 33)],
+                            [(0, 33), (1, 33), (2, 33)], [(0, 12), (0, 33), (1, 16)], [(-1, 33), (0, 33)]])
+        base, recs = self.sk, []
+        for dk, rt in shape:
+            k = max(1, base + dk)
+            recs.append(srv_rec(inst(self.last[0], self.last[1], k), rtype=rt))
+            if k == self.sk and rt == 33:
+                self.sk += 1
+        self.lines.append("DELIVER 4:3232235777|5353|0|1|0||" + ";".join(recs))
+        self.marks.append(self.now + 2000)
+
     def conflict_service_exact(self):
         if self.last:
             nm = inst(self.last[0], self.last[1], self.sk)
@@ -251,7 +268,10 @@ def gen_script(rng, nops, focus):
             if r < 0.28:
                 w.update(same=rng.random() < 0.4)
             elif r < 0.40:
-                w.conflict_service()
+                if rng.random() < 0.25:
+                    w.conflict_service_multi()
+                else:
+                    w.conflict_service()
             elif r < 0.48:
                 w.conflict_host()
             elif r < 0.60:
